@@ -464,6 +464,7 @@ def c13(res):
 def c14(res):
     wd = workdir("C14")
     q = res.tier == "quick"
+    res.models.append(model_check("BindHist", "BindHist.cfg", wd, workers=4, timeout=1200))
     res.models.append(model_check("VarBind", "VarBind_mc.cfg", wd, workers=8))
     cases = os.path.join(wd, "cases.out")
     res.gens.append(generate("VarBind", "VarBindGen_quick.cfg" if q else "VarBindGen_thorough.cfg", wd, cases, workers=4))
